@@ -16,6 +16,26 @@ HEADER = ('From Coq Require Import NArith List.\nFrom Kd Require Import theories
           'theories.KeventCases.\nImport ListNotations.\nOpen Scope N_scope.')
 
 
+def source_constants():
+    import ast
+    import re
+    out = set()
+    try:
+        for node in ast.walk(ast.parse(open('/repo/pykdebugparser/kevent.py').read())):
+            if isinstance(node, ast.Constant) and isinstance(node.value, int) and not isinstance(node.value, bool):
+                out |= {node.value, node.value + 1, max(node.value - 1, 0)}
+    except Exception:  # noqa
+        pass
+    try:
+        for line in open('/repo/pykdebugparser/trace.codes'):
+            m = re.match(r'\s*(0[xX])?([0-9a-fA-F]+)\s', line)
+            if m and int(m.group(2), 16) & 3:
+                out.add(int(m.group(2), 16))
+    except Exception:  # noqa
+        pass
+    return sorted(v for v in out if 0 <= v < 2 ** 64)
+
+
 def gen_records(ctx):
     """structured + random 64-byte records and wrong-length buffers; returns [(kind, bytes)]"""
     rng = ctx.rng
@@ -38,7 +58,17 @@ def gen_records(ctx):
     # field extremes
     specials = [0, 1, 2, 3, 4, 0xff, 0x100, 0x7fffffff, 0x80000000, 0xffffffff, 0xfffffffc, 0xfffffffd,
                 2 ** 63, 2 ** 64 - 1]
+    # source-guided: every integer literal of kevent.py (masks, shifts, special-cased ids) and its neighbours, plus every
+    # id of the bundled code table whose low bits are set, as values of every field
+    specials += source_constants()
     n_field = 400 if ctx.quick() else 6000
+    for v in specials:
+        for fld in range(5):
+            vals = [5, 6, 7, 8, 9]
+            vals[fld] = v
+            ts, tid, dbg, cpu, unused = vals
+            recs.append(('fields', struct.pack('<Q32sQIIQ', ts & (2 ** 64 - 1), struct.pack('<QQQQ', 1, 2, 3, 4), tid & (2 ** 64 - 1),
+                                               dbg & 0xffffffff, cpu & 0xffffffff, unused & (2 ** 64 - 1))))
     for _ in range(n_field):
         ts = rng.choice(specials + [rng.getrandbits(64)])
         tid = rng.choice(specials + [rng.getrandbits(64)])
